@@ -236,8 +236,8 @@ def unreachable_ok(N, fn, node, conds):
                 explicit |= {v for v in pat_variants(a["pat"]) if v != "_"}
         # an earlier early-return keeps only values matching `matches!(scr, A | B)`
         for c in flat:
-            if c[0] != "arm" and c[0] is True and show(c[1]).startswith("match(%s){" % scr):
-                kept = set(re.findall(r"(TypeDef::\w+)\(", show(c[1]).split("=>true")[0]))
+            if c[0] != "arm" and c[0] is True and c[1][0] == "iflet" and show(c[1][2]) == scr:
+                kept = set(re.findall(r"(TypeDef::\w+)\(", c[1][1]))
                 if kept and kept <= explicit:
                     return True, "only %s reach the match (early return), and each has an explicit arm" % sorted(kept)
                 return False, "early return lets %s through but the match handles only %s explicitly" % (sorted(kept), sorted(explicit))
